@@ -23,7 +23,7 @@ def std(quick_parts=16, thorough_extra=None, conc=True):
 
 PROPS = {
     "C09": dict(
-        technique='runtime monitoring: 128-bit index-map oracle, exhaustive enumeration of residues p mod 2N at run time, ASan+UBSan',
+        technique='runtime monitoring: 128-bit index-map oracle, exhaustive enumeration of residues p mod 2N at run time, ASan+UBSan + ThreadSanitizer pass over the multi-threaded cases; buffer placement modes (aligned, adjacent, guard pages, far apart, packed) and a per-process prelude of unrelated calls',
         exhaustive_subspaces=dict(
             quick=["every residue p mod 2N for every N = 1..8192 on all 11 coefficient kernels (7 for even p) with the injective probe a_i = i+1 "
                    "(the maps are data-independent signed permutations, so one injective probe determines them); counts per N in monitors.exhaustive_residues:*"],
@@ -39,7 +39,7 @@ PROPS = {
                      "determines the signed permutation", ASAN_NOTE],
     ),
     "C05": dict(
-        technique='runtime monitoring: 1024-bit big-integer digit oracle on every normalisation call, exhaustive small-k windows, canaries, ASan+UBSan',
+        technique='runtime monitoring: 1024-bit big-integer digit oracle on every normalisation call, exhaustive small-k windows, canaries, ASan+UBSan + ThreadSanitizer pass over the multi-threaded cases; buffer placement modes (aligned, adjacent, guard pages, far apart, packed) and a per-process prelude of unrelated calls',
         exhaustive_subspaces=dict(
             quick=["znx_normalize: all (in, carry_in) pairs of the window [-2^(k+1), 2^(k+1)]^2 for k = 1,2,3 x 6 presence shapes x 7 aliasings",
                    "vec_znx_normalize_base2k: all limb-value combinations of the window for k = 1,2,3, a_size <= 3, res_size <= a_size+1"],
@@ -54,7 +54,7 @@ PROPS = {
                      "carry_in of the primitive restricted to |c| < 2^(63-k) (digit + carry cannot overflow int64)", ASAN_NOTE],
     ),
     "C08": dict(
-        technique='runtime monitoring: per-limb definition oracle, ASan-poisoned stride padding and guard bands with canaries, input snapshots',
+        technique='runtime monitoring: per-limb definition oracle, ASan-poisoned stride padding and guard bands with canaries, input snapshots + ThreadSanitizer pass over the multi-threaded cases; buffer placement modes (aligned, adjacent, guard pages, far apart, packed) and a per-process prelude of unrelated calls',
         runs=std(),
         rule=("case = one call (operation, level module/kernel, module type, dispatch, N, res/a/b limb counts, stride "
               "choices, extra-limb flag); distinct by descriptor hash; non-trivial when res_size >= 1 and at least one "
@@ -64,7 +64,7 @@ PROPS = {
                      "stride padding and guard bands are ASan-poisoned and carry canaries; inputs are byte-snapshotted", ASAN_NOTE],
     ),
     "C01": dict(
-        technique='runtime monitoring: exact negacyclic-product oracle on every FFT64 product executed under ASan+UBSan, both dispatch configurations (hook H1), feedback-directed sign-flip search',
+        technique='runtime monitoring: exact negacyclic-product oracle on every FFT64 product executed under ASan+UBSan, both dispatch configurations (hook H1), feedback-directed sign-flip search + ThreadSanitizer pass over the multi-threaded cases; buffer placement modes (aligned, adjacent, guard pages, far apart, packed) and a per-process prelude of unrelated calls',
         runs=std(),
         rule=("case = one product through one FFT64 path (small single product | svp_prepare+svp_apply_dft+idft | "
               "...+idft_tmp_a) for (N, operand family, dispatch, res/a limb counts, stride, repetition); distinct by "
@@ -76,7 +76,7 @@ PROPS = {
                      "budget E evaluated in long double from the actual operands and inflated by 2^-40", ASAN_NOTE],
     ),
     "C02": dict(
-        technique='runtime monitoring: exact per-column oracle over the full shape box, NaN-prefilled exact-size scratch, canaries, ASan+UBSan',
+        technique='runtime monitoring: exact per-column oracle over the full shape box, NaN-prefilled exact-size scratch, canaries, ASan+UBSan + ThreadSanitizer pass over the multi-threaded cases; buffer placement modes (aligned, adjacent, guard pages, far apart, packed) and a per-process prelude of unrelated calls',
         runs=std(),
         rule=("case = one (N, nrows, ncols, a_size, res_size, a stride, dispatch, operand magnitude class) shape: "
               "prepare + both apply entry points + inverse DFT; distinct by descriptor hash; non-trivial when "
@@ -87,7 +87,7 @@ PROPS = {
                      "budgets of the rows + 1/2", "scratch buffers are exactly *_tmp_bytes and NaN-prefilled", ASAN_NOTE],
     ),
     "C10": dict(
-        technique='runtime monitoring: 128-bit modular / CRT oracle over ref and AVX2 kernels, non-canonical and extremal operands, ASan+UBSan',
+        technique='runtime monitoring: 128-bit modular / CRT oracle over ref and AVX2 kernels, non-canonical and extremal operands, ASan+UBSan + ThreadSanitizer pass over the multi-threaded cases; buffer placement modes (aligned, adjacent, guard pages, far apart, packed) and a per-process prelude of unrelated calls',
         exhaustive_subspaces=dict(
             quick=["every product kernel flavour at every length ell with ell mod 64 in {63, 0, 1} in 0..10000 (regime changes of blocked / unrolled loops)"],
             thorough=["every product kernel flavour at every length ell = 0..10000 (monitors.exhaustive_ell_values)"]),
@@ -100,7 +100,7 @@ PROPS = {
                      "constants recomputed by the oracle", ASAN_NOTE],
     ),
     "C03": dict(
-        technique='runtime monitoring: modular-arithmetic oracle (round trip, linearity, convolution, Horner at the observed roots) on real NTT executions with tables created in interleaved orders, ASan+UBSan',
+        technique='runtime monitoring: modular-arithmetic oracle (round trip, linearity, convolution, Horner at the observed roots) on real NTT executions with tables created in interleaved orders, ASan+UBSan + ThreadSanitizer pass over the multi-threaded cases; buffer placement modes (aligned, adjacent, guard pages, far apart, packed) and a per-process prelude of unrelated calls',
         runs=std(),
         rule=("case = (n, lane family, table set, repetition) transform batch (round trip + linearity + convolution), "
               "an evaluation-map check, or one module-level dft/idft call (N, a/dft/res limb counts, stride, variant); "
@@ -112,7 +112,7 @@ PROPS = {
                      "tables of all 17 sizes are alive together, created large-to-small and small-to-large", ASAN_NOTE],
     ),
     "C04": dict(
-        technique='runtime monitoring: hook H2 stage trace checked online by a 128-bit shadow execution with operand-fit predicates, worst-case operand workloads, hill-climbing on observed maxima, ASan+UBSan',
+        technique='runtime monitoring: hook H2 stage trace checked online by a 128-bit shadow execution with operand-fit predicates, worst-case operand workloads, hill-climbing on observed maxima, ASan+UBSan + ThreadSanitizer pass over the multi-threaded cases; buffer placement modes (aligned, adjacent, guard pages, far apart, packed) and a per-process prelude of unrelated calls',
         exhaustive_subspaces=dict(
             quick=["every product kernel flavour at every length ell with ell mod 64 in {63, 0, 1} in 0..10000 (regime changes of blocked / unrolled loops)"],
             thorough=["every product kernel flavour at every length ell = 0..10000 (monitors.exhaustive_ell_values)"]),
@@ -129,7 +129,7 @@ PROPS = {
                      "default 30-bit prime set", ASAN_NOTE],
     ),
     "C06": dict(
-        technique='runtime monitoring: long-double FFT oracle validated by float128 Horner evaluation, every m and implementation incl. assembly leaves, bitwise repeat + table hash, ASan+UBSan (+memcheck in thorough)',
+        technique='runtime monitoring: long-double FFT oracle validated by float128 Horner evaluation, every m and implementation incl. assembly leaves, bitwise repeat + table hash, ASan+UBSan (+memcheck in thorough) + ThreadSanitizer pass over the multi-threaded cases; buffer placement modes (aligned, adjacent, guard pages, far apart, packed) and a per-process prelude of unrelated calls',
         runs=plan([dict(cfg="asan", parts=16), dict(CONC)],
                   [dict(cfg="asan", parts=16, tier="quick"), dict(cfg="plain", parts=16), dict(CONC, parts=8),
                    dict(cfg="plain", parts=8, tier="quick", mode="memcheck",
@@ -146,7 +146,7 @@ PROPS = {
                      "memcheck (thorough tier) instruments their memory accesses", ASAN_NOTE],
     ),
     "C14": dict(
-        technique='runtime monitoring: exact float128 rounding oracle, boundary and dense near-tie sweeps over every divisor / bound / overhead and variant, ASan+UBSan',
+        technique='runtime monitoring: exact float128 rounding oracle, boundary and dense near-tie sweeps over every divisor / bound / overhead and variant, ASan+UBSan + ThreadSanitizer pass over the multi-threaded cases; buffer placement modes (aligned, adjacent, guard pages, far apart, packed) and a per-process prelude of unrelated calls',
         exhaustive_subspaces=dict(
             quick=["int32 -> complex (cplx_from_znx32 and cplx_from_tnx32, reference and AVX2/FMA kernels): every one of the 2^32 int32 values, "
                    "each compared with the exact double (counts in monitors.exhaustive_int32:*)"],
@@ -164,7 +164,7 @@ PROPS = {
                      "fill their vector step (the library itself selects them for m >= 8)", ASAN_NOTE],
     ),
     "C17": dict(
-        technique='runtime monitoring: layout-definition and long-double complex-arithmetic oracles with analytic rounding budgets, ASan+UBSan',
+        technique='runtime monitoring: layout-definition and long-double complex-arithmetic oracles with analytic rounding budgets, ASan+UBSan + ThreadSanitizer pass over the multi-threaded cases; buffer placement modes (aligned, adjacent, guard pages, far apart, packed) and a per-process prelude of unrelated calls',
         runs=std(),
         rule=("case = one kernel batch: extract/save (m, ref|avx, nrows, row stride, contiguous|strided) over all or "
               "sampled block indices; layout round trip (m, variant); dot product (1|2 columns, ref|avx2, nrows, value "
@@ -177,7 +177,7 @@ PROPS = {
                      "constrained (the library uses 0,2,1,3); the round trip and the re/im pairing are", ASAN_NOTE],
     ),
     "C13": dict(
-        technique='runtime monitoring: aliased-vs-separate differential (bitwise) for every supported aliasing pattern, ASan+UBSan',
+        technique='runtime monitoring: aliased-vs-separate differential (bitwise) for every supported aliasing pattern, ASan+UBSan + ThreadSanitizer pass over the multi-threaded cases; buffer placement modes (aligned, adjacent, guard pages, far apart, packed) and a per-process prelude of unrelated calls',
         runs=std(),
         rule=("case = one aliasing pattern exercised once (operation+pattern, N, module type, dispatch, res/aliased/other "
               "limb counts, strides, p class, repetition): the out-of-place call on a copy and the aliased call; "
@@ -188,7 +188,7 @@ PROPS = {
                      "the aliased operand's limb count", "bitwise equality with the out-of-place call (same kernel runs)", ASAN_NOTE],
     ),
     "C11": dict(
-        technique='sanitizers: ASan+UBSan on exact-size guard-banded poisoned buffers, canaries, differential pre-fill, valgrind memcheck definedness, LeakSanitizer',
+        technique='sanitizers: ASan+UBSan on exact-size guard-banded poisoned buffers, canaries, differential pre-fill, valgrind memcheck definedness, LeakSanitizer + ThreadSanitizer pass over the multi-threaded cases; buffer placement modes (aligned, adjacent, guard pages, far apart, packed) and a per-process prelude of unrelated calls',
         runs=plan([dict(cfg="asan", parts=16), dict(CONC),
                    dict(cfg="asan", parts=4, mode="leaks", env={"ASAN_OPTIONS": "abort_on_error=1:detect_leaks=1:leak_check_at_exit=0:allocator_may_return_null=1:handle_abort=0"}),
                    dict(cfg="plain", parts=8, mode="memcheck", wrapper=["valgrind", "-q", "--error-exitcode=97", "--errors-for-leak-kinds=none"], timeout=1800)],
@@ -221,7 +221,7 @@ PROPS = {
                      "which only touch caller data)", "in the 'ro' build every allocation made while creating modules and "
                      "tables is served from private mappings that are PROT_READ during the concurrent phase",
                      "executions decide only the interleavings that were observed (overlap counts are in the evidence)"],
-        technique="runtime monitoring: ThreadSanitizer + read-only (mprotect) tables + concurrent-vs-sequential differential",
+        technique="runtime monitoring: ThreadSanitizer + read-only (mprotect) tables + concurrent-vs-sequential differential + cold first use, concurrent construction / allocation, thread churn, oversubscription; helgrind in the thorough tier",
     ),
     "C15": dict(
         runs=std(),
@@ -234,7 +234,7 @@ PROPS = {
         assumptions=["output hashes (64-bit) stand for the output bytes", "arguments derive from the seed only; the "
                      "pre-fill pattern of outputs/scratch and the byte offset (0..56) of every buffer change between "
                      "repeats", ASAN_NOTE],
-        technique="runtime monitoring: online call-history checker over random programs + fresh-table differential, under ASan+UBSan",
+        technique="runtime monitoring: online call-history checker over random programs (equal-argument repeats under other pre-fills, alignments and buffer placements), comparison of sampled calls with the same call made as the only call of a fresh process (forked pristine server), *_simple vs table twins, repetition by concurrent threads, FP-environment monitor, ASan+UBSan + ThreadSanitizer pass",
     ),
     "C18": dict(
         runs=plan([dict(cfg="asan", parts=16), dict(cfg="plain", tag="ro", defs="-DVP_ROALLOC", parts=16)],
@@ -248,10 +248,10 @@ PROPS = {
                      "in-place transforms, accumulating products) and are not snapshotted",
                      "table hashes cover every allocation whose layout is known; in the 'ro' build all allocations made "
                      "during creation are covered and write-protected", ASAN_NOTE],
-        technique="runtime monitoring: source snapshots + table hashing under ASan, and write-protected (mprotect) tables",
+        technique="runtime monitoring: source snapshots + table hashing under ASan, and write-protected (mprotect) tables + in-place tails, role-rotation chains; buffer placement modes and a per-process prelude of unrelated calls",
     ),
     "C07": dict(
-        technique='runtime monitoring: pairwise differential of every accelerated kernel vs its reference twin and of the public API under both dispatch configurations (hook H1), also under 4 concurrent threads, ASan+UBSan',
+        technique='runtime monitoring: pairwise differential of every accelerated kernel vs its reference twin and of the public API under both dispatch configurations (hook H1), also under 4 concurrent threads, ASan+UBSan + ThreadSanitizer pass over the multi-threaded cases; buffer placement modes (aligned, adjacent, guard pages, far apart, packed) and a per-process prelude of unrelated calls',
         runs=std(),
         rule=("case = one pair comparison (accelerated catalogue entry ~ its reference twin, N, argument seed) or one "
               "dispatch comparison (public entry point under generic-C and accelerated dispatch, N, seed); both members "
@@ -280,6 +280,6 @@ PROPS = {
                      "(C01 budget per product, propagated through chained products); an operation is only emitted when "
                      "eps < 1/4 and all magnitudes are inside the documented ranges, so exact equality is the oracle",
                      ASAN_NOTE],
-        technique="runtime monitoring: random API programs checked online against an exact interpreter, under ASan+UBSan",
+        technique="runtime monitoring: random API programs checked online against an exact interpreter, under ASan+UBSan + ThreadSanitizer pass over the multi-threaded cases; buffer placement modes (aligned, adjacent, guard pages, far apart, packed) and a per-process prelude of unrelated calls",
     ),
 }
